@@ -375,10 +375,14 @@ def get_field_types(type_: type[DataclassInstance]) -> dict[Field, Any]:
     """
     ret: dict[Field, Any] = {}
 
+    # Resolves postponed (string) annotations as well as forward references
+    # nested inside otherwise evaluated annotations, e.g. tuple["Later", ...]
+    type_hints = get_type_hints(type_)
+
     for field in fields(type_):
         f_type = field.type
-        if isinstance(f_type, str):
-            f_type = get_type_hints(type_).get(field.name)
+        if isinstance(f_type, str) or field.name in type_hints:
+            f_type = type_hints.get(field.name)
 
             if f_type is None:
                 raise RuntimeError(
